@@ -368,7 +368,7 @@ func specIsRejectErr(err error) bool { _, ok := err.(*RejectError); return ok }
 //@ func (*connection).sendWaitReply
 //@ nosafety nil-deref nil-iface
 //@ requires c != nil && msg != nil && specRealMsg(msg)
-//@ emits hsms.(transport).Write, hsms.(*ConnectionMetrics).incDataMsgSend, hsms.(*connection).dropNotSelected, hsms.(*ConnectionMetrics).incDataMsgDropNotSelected, hsms.(*connection).TCPDown, IsSelected:true, IsSelected:false, hsms.(*epoch).liveConn, hsms.(*ConnectionMetrics).incDataMsgInflight, hsms.(*ConnectionMetrics).decDataMsgInflight, hsms.(*ConnectionMetrics).incDataMsgErr, hsms.(*connection).sendAutoS9F9, hsms.(*replyRegistry).register, hsms.(*replyRegistry).deregister
+//@ emits hsms.(transport).Write, hsms.(*ConnectionMetrics).incDataMsgSend, hsms.(*connection).dropNotSelected, hsms.(*ConnectionMetrics).incDataMsgDropNotSelected, hsms.(*connection).TCPDown, IsSelected:true, IsSelected:false, hsms.(*epoch).liveConn, hsms.(*ConnectionMetrics).incDataMsgInflight, hsms.(*ConnectionMetrics).decDataMsgInflight, hsms.(*ConnectionMetrics).incDataMsgErr, hsms.(*connection).sendAutoS9F9, hsms.(replyRegistry).register, hsms.(replyRegistry).deregister, hsms.(*connection).writeFrame, internal/pool.GetTimer, select.arm:timer.C, select.arm:e.ctx.Done(), select.arm:callerCtx.Done(), select.arm:ch
 //@ ensures [gate]     specIsData(msg) && zzCalls("IsSelected:false") > 0 ==> zzCalls("hsms.(transport).Write") == 0 &&
 //@                    result1 == ErrNotSelectedState && zzCalls("hsms.(*ConnectionMetrics).incDataMsgDropNotSelected") == 1 && result0 == nil
 //@ ensures [once]     zzCalls("hsms.(transport).Write") <= 1 && zzCalls("hsms.(*ConnectionMetrics).incDataMsgDropNotSelected") <= 1
@@ -378,7 +378,12 @@ func specIsRejectErr(err error) bool { _, ok := err.(*RejectError); return ok }
 //@                    zzCalls("hsms.(*ConnectionMetrics).incDataMsgInflight") <= 1
 //@ ensures [inflightw] zzCalls("hsms.(*ConnectionMetrics).incDataMsgInflight") == 1 ==> zzCalls("hsms.(*ConnectionMetrics).incDataMsgSend") == 1 && specIsData(msg)
 //@ ensures [oneload]  zzCalls("atomic.Load:cur") == 1
-//@ ensures [dereg]    zzCalls("hsms.(*replyRegistry).register") == zzCalls("hsms.(*replyRegistry).deregister") && zzCalls("hsms.(*replyRegistry).register") <= 1
+//@ ensures [t3order]  zzCalls("internal/pool.GetTimer") <= 1 && (zzCalls("internal/pool.GetTimer") == 1 ==>
+//@                    zzCalls("hsms.(*connection).writeFrame") == 1 && zzSeq("hsms.(*connection).writeFrame") < zzSeq("internal/pool.GetTimer"))
+//@ ensures [waits]    zzCalls("select.arm:timer.C") >= 1 ==> zzCalls("select.arm:e.ctx.Done()") >= 1 && zzCalls("select.arm:callerCtx.Done()") >= 1 && zzCalls("select.arm:ch") >= 1
+//@ ensures [regorder] zzCalls("hsms.(replyRegistry).register") == 1 && zzCalls("hsms.(*connection).writeFrame") == 1 ==>
+//@                    zzSeq("hsms.(replyRegistry).register") < zzSeq("hsms.(*connection).writeFrame")
+//@ ensures [dereg]    zzCalls("hsms.(replyRegistry).register") == zzCalls("hsms.(replyRegistry).deregister") && zzCalls("hsms.(replyRegistry).register") <= 1
 //@ ensures [ctl]      !specIsData(msg) ==> zzCalls("hsms.(*ConnectionMetrics).incDataMsgSend") == 0 && zzCalls("hsms.(*ConnectionMetrics).incDataMsgErr") == 0 &&
 //@                    zzCalls("hsms.(*ConnectionMetrics).incDataMsgInflight") == 0 && zzCalls("hsms.(*ConnectionMetrics).incDataMsgDropNotSelected") == 0
 //@ ensures [drop]     zzCalls("hsms.(*ConnectionMetrics).incDataMsgDropNotSelected") == 1 ==> result1 == ErrNotSelectedState &&
@@ -459,7 +464,7 @@ func specBadData(stream, function byte, w bool, item secs2.Item) bool {
 //@ func (*connection).WriteMessage
 //@ nosafety nil-deref nil-iface
 //@ requires c != nil && msg != nil && specRealMsg(msg)
-//@ emits hsms.(transport).Write, hsms.(*ConnectionMetrics).incDataMsgSend, hsms.(*connection).dropNotSelected, hsms.(*ConnectionMetrics).incDataMsgDropNotSelected, hsms.(*connection).TCPDown, IsSelected:true, IsSelected:false, hsms.(*epoch).liveConn, hsms.(*ConnectionMetrics).incDataMsgInflight, hsms.(*ConnectionMetrics).decDataMsgInflight, hsms.(*ConnectionMetrics).incDataMsgErr, hsms.(*connection).sendAutoS9F9, hsms.(*replyRegistry).register, hsms.(*replyRegistry).deregister
+//@ emits hsms.(transport).Write, hsms.(*ConnectionMetrics).incDataMsgSend, hsms.(*connection).dropNotSelected, hsms.(*ConnectionMetrics).incDataMsgDropNotSelected, hsms.(*connection).TCPDown, IsSelected:true, IsSelected:false, hsms.(*epoch).liveConn, hsms.(*ConnectionMetrics).incDataMsgInflight, hsms.(*ConnectionMetrics).decDataMsgInflight, hsms.(*ConnectionMetrics).incDataMsgErr, hsms.(*connection).sendAutoS9F9, hsms.(replyRegistry).register, hsms.(replyRegistry).deregister, hsms.(*connection).writeFrame, internal/pool.GetTimer, select.arm:timer.C, select.arm:e.ctx.Done(), select.arm:callerCtx.Done(), select.arm:ch
 //@ ensures [gate] specIsData(msg) && zzCalls("IsSelected:false") > 0 ==> zzCalls("hsms.(transport).Write") == 0 &&
 //@                result1 == ErrNotSelectedState && zzCalls("hsms.(*ConnectionMetrics).incDataMsgDropNotSelected") == 1
 
@@ -517,6 +522,10 @@ func zzChanInv_replyResult(v replyResult) bool { return v.err != nil || specReal
 
 func zzArg[T any](name string, i int) T { panic("spec only") }
 func zzRecv[T any](name string) T       { panic("spec only") }
+
+//@ func (replyRegistry).register
+//@ nosafety nil-deref nil-iface
+//@ ensures [fresh] fresh(result)
 
 //@ func (replyRegistry).route
 //@ nosafety nil-deref nil-iface
